@@ -48,6 +48,13 @@ two rounds of 33 pinned-then-released keys -/
 def pollAdversary : List Op :=
   [.pin 1, .put 1 1, .pin 2, .put 2 2] ++ (rangeFrom 1000 40).map (fun k => .put k 0) ++ advRound 2000 ++ advRound 3000
 
+/-- the adversary with five blockers (keys 1..5 pinned for ever) and four rounds: against the code before the fix of
+F15 every round leaves its 33 released entries behind a blocker, so the resident count also exceeds the bound that
+allows for the releases since the last maintenance round -/
+def pollAdversary5 : List Op :=
+  ((rangeFrom 1 5).map (fun i => [Op.pin i, Op.put i i])).flatten ++ (rangeFrom 1000 40).map (fun k => .put k 0) ++
+  advRound 2000 ++ advRound 2100 ++ advRound 2200 ++ advRound 2300
+
 /-- The history of finding F4 (the harness's canonical replay): capacity 1, `Notify`. -/
 def f4History : List Op :=
   [.pin 2, .put 1 1, .put 2 2, .put 3 3] ++ (rangeFrom 10 30).map (fun k => .put k k) ++
